@@ -506,7 +506,8 @@ def gen_chains(ctx, n_chains):
                         ops += ["call %d s:0:0 s:0:0 - - 0 0 0" % a0] * 3
                     elif k == 1:    # run to the end of the stream
                         a3 = 3 if 3 in sup else a0
-                        ops += ["call %d s:0:%d s:0:2048 - - 1 1 1" % (a3, 64 if x == "stub" else 2048)] + ["call %d k k - - 0 0 1" % a3] * 2
+                        sz = 64 if x == "stub" else 2048     # a stub created by `new` has 64-byte regions
+                        ops += ["call %d s:0:%d s:0:%d - - 1 1 1" % (a3, sz, sz)] + ["call %d k k - - 0 0 1" % a3] * 2
                     elif k == 2:    # a flush/finish left in progress
                         fl = [a for a in sup if a != 0] or [a0]
                         ops.append("call %d s:0:40 s:0:0 - - 1 0 0" % rng.choice(fl))
@@ -1050,7 +1051,7 @@ def process(ctx, exe, mexe, hists, impl, tot):
         ctx.case(ops, nontrivial=ncall > 0, sample={"family": fam, "ops": ops[:6], "impl": out[:6]} if tot["hist"] % 1201 == 1 else None)
         ctx.count("family:" + fam.split(":")[0])
         for o, r in zip(ops, out):
-            if o.startswith("call"):
+            if o.startswith("call") and not r.startswith("bad-op"):
                 ctx.count("impl_ret:" + r.split(" ", 1)[0])
                 k = r.find(" seq=")
                 ctx.count("state_after:" + r[k + 1:r.find(" sav=")].replace(" ", ","))
